@@ -535,6 +535,22 @@ def dispatchResources : Handler := fun st fam a =>
   | "grp_write", _ => some "bad-op"
   | "grp_write_chunk", k :: n :: rest => some (resOp st.img k ("grp_write_chunk" :: n :: rest))
   | "grp_write_chunk", _ => some "bad-op"
+  -- `nameeq <a> <b>`: the public comparisons of `resources::Name` without any image: `a == b` both ways, `a == str`
+  -- when b is a Rust string, `a == u32` when b is an id
+  | "nameeq", [a, b] =>
+    some (match Res.parseName a, Res.parseName b with
+      | some x, some y =>
+        let b01 (c : Bool) : String := if c then "1" else "0"
+        let s := match y with
+          | .str t => b01 (x.eqString t)
+          | _ => "-"
+        let u := match x, y with
+          | .id n, .id m => b01 (n == m)
+          | _, .id _ => "0"
+          | _, _ => "-"
+        s!"ok eq={b01 (x.eq y)} rev={b01 (y.eq x)} str={s} u32={u}"
+      | _, _ => "bad-op")
+  | "nameeq", _ => some "bad-op"
   | "res_raw", va :: hx :: rest => some (Res.run ⟨⟨unhex hx, num va % 4294967296, 4⟩, 0⟩ rest)
   | "res_raw", _ => some "bad-op"
   -- `res_rawat <a16> <dirVA> <hex> …`: `Resources::new` on a slice at an address that is `a16` mod 16 (the public
